@@ -51,3 +51,37 @@ def tree (j : Json) : Except String Json := do
     ("enum", Json.arr #[enumJ 0, enumJ 1, enumJ 2])]
 
 end Sedpack.Drv
+
+namespace Sedpack.Drv
+open Sedpack.Tree
+
+/-- `{"m":"check","fuel":f,"sessions":[…],"fault":{"kind":"none"|"list"|"shard","dir":[…],"file":id,"how":"remove"|"alter"|"swap","with":id}}`
+Shard `file` has content `1000+file` and recorded digest `1000+file` (`Hf = id`). -/
+def checkJ (j : Json) : Except String Json := do
+  let fuel ← getNat j "fuel"
+  let ssJ ← getArr j "sessions"
+  let sessions0 ← ssJ.toList.mapM parseSession
+  let sessions : List Session := sessions0.map (fun se => se.map (fun w => (w.1, w.2.map (fun s => { s with hash := 1000 + s.file }))))
+  let ds0 : DS := { fs := fun _ => none, splits := fun _ => none }
+  let ds := sessions.foldl (session Hdrv fuel) ds0
+  let infos := [0, 1, 2].filterMap ds.splits
+  let files0 : Files := fun d f => match ds.fs d with
+    | some l => if l.files.any (·.file == f) then some (1000 + f) else none
+    | none => none
+  let fault ← j.getObjVal? "fault"
+  let kind ← getStr fault "kind"
+  let dir := (fault.getObjValAs? (List Nat) "dir").toOption.getD []
+  let file := (fault.getObjValAs? Nat "file").toOption.getD 0
+  let how := (fault.getObjValAs? String "how").toOption.getD "alter"
+  let other := (fault.getObjValAs? Nat "with").toOption.getD 0
+  let fs' : FS := if kind == "list" then
+      (fun x => if x = dir then
+        (if how == "remove" then none else (ds.fs x).map (fun l => { l with n := l.n + 1 })) else ds.fs x)
+    else ds.fs
+  let files' : Files := if kind == "shard" then
+      (fun d f => if d = dir ∧ f = file then
+        (if how == "remove" then none else if how == "swap" then files0 d other else some 0) else files0 d f)
+    else files0
+  return Json.mkObj [("ok", Json.bool (check Hdrv id fuel fs' files' infos))]
+
+end Sedpack.Drv
